@@ -101,6 +101,8 @@ def safeAct (cfg : Cfg) (s : St) : Act → Bool
     | .event => true
     | .post => !cfg.foreignReset || T.mode == .indication || T.res == some .ok || T.res == some .err || T.res == none
     | .wait => match T.conn with | some c => (s.conns c).result.isSome | none => false
+    -- the deferred reset is a no-op once the slot has moved on (a connection id is never published twice)
+    | .deferReset => s.inFlight != T.conn
     | .cancel => T.mode == .plain &&
         (match T.conn with
          | some c => !((s.conns c).phase == .login || (s.conns c).phase == .transition)
@@ -130,7 +132,7 @@ def safeAct (cfg : Cfg) (s : St) : Act → Bool
 
 /-- all quiescent states reachable from `inits` under every interleaving of internal steps (up to the reduction);
     the flag tells whether the search budget was exhausted -/
-partial def settle (cfg : Cfg) (inits : List St) : List St × Bool :=
+partial def settle (cfg : Cfg) (budget0 : Nat) (inits : List St) : List St × Bool :=
   let rec go (stack : List St) (seen : Std.HashSet String) (out : List St) (budget : Nat) : List St × Bool :=
     match stack with
     | [] => (out, false)
@@ -147,7 +149,7 @@ partial def settle (cfg : Cfg) (inits : List St) : List St × Bool :=
           let k := key s'
           if acc.2.contains k then acc else (s' :: acc.1, acc.2.insert k)) (rest, seen)
         go stack' seen' out (budget - 1)
-  go inits (inits.foldl (fun h s => h.insert (key s)) {}) [] 60000
+  go inits (inits.foldl (fun h s => h.insert (key s)) {}) [] budget0
 
 structure DS where
   cfg : Cfg := repaired false []
@@ -156,6 +158,9 @@ structure DS where
   outstanding : Nat := 0
   orphaned : Nat := 0     -- stalled attempts whose in-flight slot a kick has cleared (known finding)
   loggedIn : Bool := false
+  partialSearch : Bool := false   -- some interleaving search of this scenario hit its budget: the candidate set may be incomplete
+  budget : Nat := 300000          -- states per interleaving search (C16_BUDGET overrides)
+  mark : Bool := false            -- pre-pass mode (C16_MARK_INCONCLUSIVE): print the verdict `inconclusive` for undecided lines
 
 def dedupe (l : List (St × List Nat)) : List (St × List Nat) :=
   (l.foldl (fun (acc : List (St × List Nat) × Std.HashSet String) x =>
@@ -167,7 +172,7 @@ def advance (d : DS) (f : St → List Nat → Option (St × List Nat)) : List (S
   let rs := d.states.map fun (s, ids) =>
     match f s ids with
     | none => ([], false)
-    | some (s', ids') => let (fin, ex) := settle d.cfg [s']; (fin.map (·, ids'), ex)
+    | some (s', ids') => let (fin, ex) := settle d.cfg d.budget [s']; (fin.map (·, ids'), ex)
   (dedupe (rs.flatMap (·.1)), rs.any (·.2))
 
 def spawnPlain (s : St) (dst : Nat) : St × Nat :=
@@ -280,7 +285,7 @@ def stepDriver (d : DS) (c0 : Case) : DS × String × String :=
   | "reset", [_proto, m, try_, scripts] =>
     let cfg := srcCfg (m = "1") ((try_.splitOn ",").map srvOf)
     let s0 : St := { scripts := parseScripts scripts }
-    ({ cfg := cfg, states := [(s0, [])] }, "ok", "-")
+    ({ cfg := cfg, states := [(s0, [])], mark := d.mark, budget := d.budget }, "ok", "-")
   | "script", [srv, behs] =>
     let l := (behs.splitOn ".").filterMap parseBeh
     ({ d with states := d.states.map fun (s, ids) => ({ s with scripts := upd s.scripts (srvOf srv) l }, ids) }, "ok", "-")
@@ -373,14 +378,18 @@ def stepDriver (d : DS) (c0 : Case) : DS × String × String :=
       match spec with
       | some (f, render) => let (fin, ex) := advance d f; (fin.map render, ex)
       | none => ([], false)
-    let verdict := judge d op args c.impl mp
     let matching := cands.filter (·.1 = c.impl)
-    let out := if !matching.isEmpty then c.impl else
-      if exhausted then "search-budget-exhausted" else
+    -- A search that hit its budget decides nothing about an observation it did not find: the line (and any later
+    -- line of the scenario that is not found among the then incomplete candidates) is INCONCLUSIVE — the model
+    -- column echoes the observation (no disagreement is claimed), the executable spec is still evaluated on it.
+    let inconclusive := matching.isEmpty && (exhausted || d.partialSearch)
+    let verdict := if inconclusive && d.mark then "inconclusive" else judge d op args c.impl mp
+    let out := if !matching.isEmpty || inconclusive then c.impl else
       match (cands.map (·.1)).toArray.qsort (· < ·) |>.toList with
       | x :: _ => x
       | [] => "no-model-state"
     let states' := if matching.isEmpty then cands.map (·.2) else matching.map (·.2)
+    let d := { d with partialSearch := d.partialSearch || exhausted }
     let outstanding' :=
       match op with
       | "start" => if c.impl.startsWith "stalled" then d.outstanding + 1 else d.outstanding
@@ -400,4 +409,7 @@ def stepDriver (d : DS) (c0 : Case) : DS × String × String :=
 
 end Gate.C16
 
-def main : IO Unit := Gate.runDriver ({} : Gate.C16.DS) Gate.C16.stepDriver
+def main : IO Unit := do
+  let mark := (← IO.getEnv "C16_MARK_INCONCLUSIVE").isSome
+  let budget := ((← IO.getEnv "C16_BUDGET").bind String.toNat?).getD 300000
+  Gate.runDriver ({ mark := mark, budget := budget } : Gate.C16.DS) Gate.C16.stepDriver
